@@ -4,7 +4,8 @@
    pkg/tarfs/fs.go (b = TarFS); its symlink limits (getnode_depth,
    openfile_depth) and the reference's budget (spec_max_links) are the
    constants goextract read from those files on this run. *)
-From Apko Require Import Base.Prelude Model.MemFS Spec.FsSpec Proofs.FsProofs Generated.FsConsts.
+From Coq Require Import Sorting.Sorted.
+From Apko Require Import Base.Prelude Model.MemFS Spec.FsSpec Proofs.FsProofs Proofs.FsLaws Generated.FsConsts.
 Open Scope string_scope. Open Scope list_scope.
 
 (* the limits the theorems below are about: both files say the same, and it is
@@ -22,6 +23,80 @@ Theorem c17_failure_no_change : forall s o s' r,
   spec_step s o = (s', r) -> is_failure r = true -> is_mkdirall o = false -> s' = s.
 Proof. exact spec_failure_no_change. Qed.
 Print Assumptions c17_failure_no_change.
+
+(* ---- laws of the reference ------------------------------------------------------------ *)
+(* reads return exactly the bytes last written: a successful Write of p at
+   offset o is seen by ReadAt(o, |p|) through any open readable handle on the
+   same inode *)
+Theorem c17_read_after_write : forall s i p hd s' r,
+  nth_error (handles s) i = Some hd -> f_app (h_fl hd) = false ->
+  h_ino hd < List.length (heap s) -> p <> [] ->
+  spec_step s (Write i p) = (s', r) -> is_failure r = false ->
+  r = ONum (blen p) /\
+  forall j hj, nth_error (handles s') j = Some hj -> h_open hj = true -> readable (h_fl hj) = true ->
+    h_ino hj = h_ino hd -> is_dir (heap s') (h_ino hd) = false ->
+    spec_step s' (ReadAt j (List.length p) (h_off hd)) = (s', OBytes p).
+Proof. exact read_after_write. Qed.
+Print Assumptions c17_read_after_write.
+
+(* metadata reads return what was last set *)
+Theorem c17_metadata_last_set : forall s p i, s_node (heap s) p = inl i -> i < List.length (heap s) ->
+  (forall m s', spec_step s (Chmod p m) = (s', OOk) ->
+     spec_step s' (Stat p) = (s', info_of (set_perm m (get (heap s) i)))) /\
+  (forall u g s', spec_step s (Chown p u g) = (s', OOk) ->
+     spec_step s' (Stat p) = (s', info_of (set_owner u g (get (heap s) i)))) /\
+  (forall t s', spec_step s (Chtimes p t) = (s', OOk) ->
+     spec_step s' (Stat p) = (s', info_of (set_mtime (Some t) (get (heap s) i)))).
+Proof. exact metadata_last_set. Qed.
+Print Assumptions c17_metadata_last_set.
+
+(* directory listings are complete, strictly ascending in byte order, hence
+   duplicate-free; listing changes nothing *)
+Theorem c17_readdir_sorted_complete_nodup : forall s p s' l,
+  spec_step s (ReadDir p) = (s', ODir l) ->
+  exists i, s_node (heap s) p = inl i /\ is_dir (heap s) i = true /\ s' = s /\
+    StronglySorted slt (List.map fst l) /\ NoDup (List.map fst l) /\
+    (forall nm, In nm (List.map fst l) <-> In nm (List.map fst (n_children (get (heap s) i)))).
+Proof. exact readdir_sorted_complete_nodup. Qed.
+Print Assumptions c17_readdir_sorted_complete_nodup.
+
+(* hard links share content: the new name is entered for the very inode the
+   old name resolves to, and contents and metadata live in the inode *)
+Theorem c17_hardlinks_share : forall s old new s',
+  spec_step s (Link old new) = (s', OOk) ->
+  exists d nm i,
+    s_node (heap s) old = inl i /\ s_leaf (heap s) new = inl (d, nm, None) /\ is_dir (heap s) i = false /\
+    heap s' = add_child (heap s) d nm i /\ handles s' = handles s /\
+    lookup nm (n_children (get (heap s') d)) = Some i.
+Proof. exact hardlinks_share. Qed.
+Print Assumptions c17_hardlinks_share.
+
+(* symbolic links: resolution is a total function (structural recursion on the
+   budget, no fuel); a resolution that would follow more than the budget is an
+   error, a loop is an error for every budget, and a resolution that does not
+   fail followed at most [budget] links *)
+Theorem c17_symlink_budget : forall h follow,
+  (forall n c, iter h follow (S n) c <> None -> resolve_cfg n h follow c = RErr EOther) /\
+  (forall c, next h follow c = Some c -> forall n, resolve_cfg n h follow c = RErr EOther) /\
+  (forall n c, (forall e, resolve_cfg n h follow c <> RErr e) -> exists k, k <= n /\ iter h follow (S k) c = None).
+Proof. intros h follow. split; [apply budget_exceeded | split; [apply loop_is_error | apply success_within_budget]]. Qed.
+Print Assumptions c17_symlink_budget.
+
+(* with the budget of the source: a chain of spec_max_links links resolves, one more does not *)
+Fixpoint chain_ops (k : nat) : list op :=
+  match k with
+  | O => []
+  | S k' => Symlink [match k' with O => "f" | S _ => String.append "l" (string_of_bytes [N.of_nat (48 + k' / 10); N.of_nat (48 + k' mod 10)]) end]
+              [String.append "l" (string_of_bytes [N.of_nat (48 + k / 10); N.of_nat (48 + k mod 10)])] :: chain_ops k'
+  end.
+Example c17_chain_at_the_limit :
+  let s40 := fst (spec_run init_st (WriteFile ["f"] [7]%N 420%N :: chain_ops spec_max_links)) in
+  let s41 := fst (spec_run init_st (WriteFile ["f"] [7]%N 420%N :: chain_ops (S spec_max_links))) in
+  snd (spec_step s40 (ReadFile ["l40"])) = OBytes [7]%N /\ snd (spec_step s41 (ReadFile ["l41"])) = OErr EOther /\
+  snd (model_step MemFS s40 (ReadFile ["l40"])) = OBytes [7]%N /\ snd (model_step MemFS s41 (ReadFile ["l41"])) = OErr EOther /\
+  snd (model_step TarFS s40 (Stat ["l40"])) = snd (spec_step s40 (Stat ["l40"])) /\
+  snd (model_step TarFS s41 (Stat ["l41"])) = OErr EOther.
+Proof. vm_compute. repeat split; reflexivity. Qed.
 
 (* the same of the two in-memory filesystems, in every state (inside the
    envelope or not): a failing or panicking operation other than MkdirAll
